@@ -18,10 +18,10 @@ using app::Leaf; using app::Val; using app::Incoming;
 using undo_model::V; using undo_model::Model; using undo_model::Emit;
 
 enum { ST_RUNS, ST_OPS, ST_DISPATCHES, ST_SIM_MS, F_DELAYED_EVENT, F_CLOCK_ADV, F_OUT_OF_RANGE_VALUE, F_EXTREME_VALUE,
-       P_CLAMPED, P_CHANGED, P_UNDO_EVENTS, P_UNDO_MSG, P_REDO_MSG, P_AUTOMATION_MSG, P_MERGED, P_STRING_TRUNC, P_OPTION_SYMBOL, P_ARRAY_SET, P_SUBTREE_SET, P_QUERY, P_UNDO_CROSSES_AUTOMATION, P_EVICT, P_RESPELLED, P_LONG_SPELLING, ST_N };
+       P_CLAMPED, P_CHANGED, P_UNDO_EVENTS, P_UNDO_MSG, P_REDO_MSG, P_AUTOMATION_MSG, P_MERGED, P_STRING_TRUNC, P_OPTION_SYMBOL, P_ARRAY_SET, P_SUBTREE_SET, P_QUERY, P_UNDO_CROSSES_AUTOMATION, P_EVICT, P_RESPELLED, P_LONG_SPELLING, P_TIGHT_LOC, ST_N };
 static const char *STAT_NAMES[ST_N] = { "runs", "ops", "dispatches_checked", "sim_time_ms", "fault.undo_event_delivered_late", "fault.clock_advance", "fault.value_beyond_declared_bound", "fault.storage_type_extreme",
        "probe.value_clamped", "probe.value_changed", "probe.undo_events_emitted", "probe.undo_message_dispatched", "probe.redo_message_dispatched", "probe.automation_message_dispatched", "e2e.undo_events_merged",
-       "probe.string_truncated", "probe.option_set_by_symbol", "probe.array_element_set", "probe.subtree_parameter_set", "probe.query", "e2e.unused", "e2e.history_eviction", "probe.index_respelled_or_out_of_range", "probe.address_longer_than_location_buffer" };
+       "probe.string_truncated", "probe.option_set_by_symbol", "probe.array_element_set", "probe.subtree_parameter_set", "probe.query", "e2e.unused", "e2e.history_eviction", "probe.index_respelled_or_out_of_range", "probe.address_longer_than_location_buffer", "runs.location_buffer_cut_to_fit" };
 
 enum { OP_SET = 0, OP_QUERY, OP_SEEK, OP_CLOCK, OP_HOST, OP_DELIVER };
 
@@ -60,7 +60,7 @@ struct NodeWorld : World {
     bool merge(const Op &a, const Op &b, Op &out) const override { if (a.kind == OP_CLOCK && b.kind == OP_CLOCK) { out = a; out.a[0] = a.a[0] + b.a[0]; return true; } return false; }
     static int64_t fbits(float f) { uint32_t u; memcpy(&u, &f, 4); return u; }
     void gen(const std::string &prop, Rng &kr, Rng &pr, Knobs &k, Plan &p) override {
-        auto &L = app::leaves(); k.assign(1, kr.chance(0.5));
+        auto &L = app::leaves(); k.assign(2, 0); k[0] = kr.chance(0.5); k[1] = kr.chance(0.25) ? (int64_t)kr.below(4) : -1;   // k[1]: spare bytes of a location buffer cut to fit each address (-1: a roomy one)
         int n = 1 + (int)pr.below(g_tier ? 120 : 50); bool undo_heavy = prop == "C15" ? pr.chance(0.8) : pr.chance(0.3);
         // a run concentrates on a few leaves so that histories on one parameter build up
         std::vector<int> focus; int nf = 1 + (int)pr.below(6); for (int i = 0; i < nf; i++) focus.push_back((int)pr.below(L.size()));
@@ -97,10 +97,10 @@ struct NodeWorld : World {
     }
 
     Result exec(const std::string &prop, const Knobs &k, const Plan &plan, Choices &) override {
-        Result res; stat_add(ST_RUNS); bool c14 = prop != "C15"; bool delay = !k.empty() && k[0];
+        Result res; stat_add(ST_RUNS); bool c14 = prop != "C15"; bool delay = !k.empty() && k[0]; int tight_knob = k.size() > 1 ? (int)std::max<int64_t>(-1, std::min<int64_t>(k[1], 8)) : -1;
         auto &L = app::leaves();
         g_clock_ns = 1000LL * 1000000000LL + 400000000LL; int64_t t0 = g_clock_ns;
-        app::Node node; node.check = c14;
+        app::Node node; node.check = c14; node.tight = tight_knob; if (tight_knob >= 0) stat_add(P_TIGHT_LOC);
         rtosc::UndoHistory *hist = new rtosc::UndoHistory; Model um;
         rtosc::AutomationMgr *mgr = new rtosc::AutomationMgr(3, 2, 4); mgr->set_ports(app::App::ports);
         mgr->createBinding(0, "/pi", false); mgr->createBinding(1, "/pf", false); mgr->createBinding(2, "/pt", false); mgr->createBinding(2, "/sub/sf", false);
